@@ -58,6 +58,13 @@ def run(tier):
                     rec, m = one_run(len(recs), inst, dep, L, r.randrange(10 ** 6))
                     meta[rec["id"]] = m
                     recs.append(rec)
+    # premise of the statement: replication level k was reached for what the departing agents host, i.e. every orphaned
+    # computation still has a replica on a surviving agent (the UCS placement only reaches agents that host neighbour
+    # computations; with few hosting agents it can place fewer than k replicas)
+    premise_fails = [rec for rec in recs if any(rec["hostBefore"][c] in rec["left"] and not (set(rec["repsBefore"][c]) - set(rec["left"]))
+                                               for c in rec["comps"])]
+    recs = [rec for rec in recs if rec not in premise_fails]
+    v.cov["runs_outside_the_premise_not_judged"] = len(premise_fails)
     verdicts, jres = judge("Judge_C27", recs, chunk=400)
     v.add_tlc(jres, "state after %d repairs judged (Judge_C27 / Repair.tla)" % len(recs))
     for rec in recs:
